@@ -1,5 +1,6 @@
 import KV.Proofs.CsLock
 import KV.Proofs.CsFrame
+import KV.Proofs.CsStale
 /-!
 # C03 — a correct validator never equivocates and obeys the locking rules
 
@@ -145,7 +146,8 @@ Proved below (`lock_rule`) from the invariant `Cs.Lock` (`KV/Proofs/CsLock.lean`
 `signVote precommit H r (some b)` in the log at the current height `H`, either
 `locked = some ⟨b,_⟩ ∧ r ≤ lockedRound`, or `∃ r'' x'', r < r'' ≤ round ∧ x'' ≠ some b ∧
 quorum prevote H r'' x''` — established by the unlock sites (`polkaUnlock`: polka from a
-round in `(lockedRound, round]`; `doPrecommit`: nil polka / polka for another block in the current
+round in `(lockedRound, round]`; `releaseStale` in `enterNewRound` (F36 fix): the polka of a round
+in `(lockedRound, round]` the scan found; `doPrecommit`: nil polka / polka for another block in the current
 round, which is later than `r` because the signature log is sorted) and by locking on another
 block, consumed by `doPrevote` (a locked node prevotes its locked block).  The harness oracle
 checks the same clause on the real node (`c03/lock-rule`). -/
@@ -176,6 +178,32 @@ theorem lock_held (cfg : Config) (h0 : Nat) (inputs : List (Option Nat × Input)
       quorum cfg.powers (run cfg (init cfg h0) inputs).votes .prevote
         (run cfg (init cfg h0) inputs).height r'' x'' :=
   (run_lock inputs _ (init_inv cfg h0) (init_lock cfg h0) hs).cur r b hmem
+
+/-! ### no stale lock (F36) -/
+
+/-- **stale_lock_never_persists.** In every reachable state of the node (any inputs, timeouts as in
+`Sane`): if the node is locked on `lb` since `lockedRound`, none of its own prevote sets of the
+rounds in `(lockedRound, round]` has a +2/3 majority for another value (nil included).  The
+invariant `Cs.NoStale` (`KV/Proofs/CsStale.lean`) is restored where it can break: a prevote is added
+(`addVote`: "Unlocking because of POL", rounds `≤ round`), the round advances (`enterNewRound`:
+`releaseStale`, the F36 fix — before it a node that round-skipped past the prevote step of a round
+whose polka it held kept its older lock for ever and the height could not be decided:
+`KV/Props/C04Net.lean`, `stale_lock_livelock_counterexample_old_rule`), the node locks
+(`enterPrecommit`: `lockedRound := round`). -/
+theorem stale_lock_never_persists_from (cfg : Config) :
+    ∀ (inputs : List (Option Nat × Input)) (σ : State), Inv cfg σ → NoStale cfg σ → Sane cfg σ inputs →
+      NoStale cfg (run cfg σ inputs)
+  | [], _, _, N, _ => N
+  | (nb, i) :: rest, _, I, N, hs =>
+    stale_lock_never_persists_from cfg rest _ (step_inv I nb i hs.1) (step_noStale I N nb i hs.1) hs.2
+
+theorem stale_lock_never_persists (cfg : Config) (h0 : Nat) (inputs : List (Option Nat × Input))
+    (hs : Sane cfg (init cfg h0) inputs) :
+    ∀ lb, (run cfg (init cfg h0) inputs).locked = some lb → ∀ r' x,
+      (run cfg (init cfg h0) inputs).lockedRound < r' → r' ≤ (run cfg (init cfg h0) inputs).round →
+      maj23 cfg.powers ((run cfg (init cfg h0) inputs).slots .prevote (run cfg (init cfg h0) inputs).height r') = some x →
+      x = some lb.id :=
+  stale_lock_never_persists_from cfg inputs _ (init_inv cfg h0) (init_noStale cfg h0) hs
 
 /-! ### the validity bit read as a function of the block -/
 
@@ -286,10 +314,59 @@ example : (run cfg4 (init cfg4 1) happyRun).log =
 example : Sane cfg4 (init cfg4 1) happyRun := by
   simp only [happyRun, Sane, TimeoutOk]; decide
 
-/-! ### non-vacuity of `lock_rule`: the node locks block 7 in round 1, is unlocked by a nil polka
-in round 2 (after prevoting its locked block there) and prevotes nil in round 3 -/
+/-! ### non-vacuity of `lock_rule`: the node locks block 7 in round 1, goes to round 2 after the
+PrecommitWait timeout, prevotes its locked block there, is unlocked by the nil polka of round 2
+(`addVote`: "Unlocking because of POL") and prevotes nil in round 3 -/
 
 def unlockRun : List (Option Nat × Input) :=
+  [ (none, .timeout 1 1 .newHeight),
+    (none, .proposal 1 true 1 1 0 7),
+    (none, .block 1 7 true true),
+    (none, .vote 0 0 .prevote 1 1 (some 7) true),
+    (none, .vote 1 1 .prevote 1 1 (some 7) true),
+    (none, .vote 1 2 .prevote 1 1 (some 7) true),
+    (none, .vote 0 0 .precommit 1 1 (some 7) true),
+    (none, .vote 1 1 .precommit 1 1 none true),
+    (none, .vote 1 2 .precommit 1 1 none true),
+    (none, .timeout 1 1 .precommitWait),
+    (none, .timeout 1 2 .propose),
+    (none, .vote 0 0 .prevote 1 2 (some 7) true),
+    (none, .vote 1 1 .prevote 1 2 none true),
+    (none, .vote 1 2 .prevote 1 2 none true),
+    (none, .vote 1 3 .prevote 1 2 none true),
+    (none, .vote 0 0 .precommit 1 2 none true),
+    (none, .vote 1 1 .prevote 1 3 (some 8) true),
+    (none, .vote 1 2 .prevote 1 3 (some 8) true),
+    (none, .vote 1 3 .prevote 1 3 (some 8) true),
+    (none, .timeout 1 3 .propose) ]
+
+example : (run cfg4 (init cfg4 1) unlockRun).log =
+    [.signVote .prevote 1 3 none, .schedule 1 3 .propose, .signVote .precommit 1 2 none,
+     .schedule 1 2 .prevoteWait, .signVote .prevote 1 2 (some 7), .schedule 1 2 .propose,
+     .schedule 1 1 .precommitWait, .signVote .precommit 1 1 (some 7),
+     .signVote .prevote 1 1 (some 7), .schedule 1 1 .propose] := by decide
+
+/-- the lock is held until the third nil prevote of round 2 is added -/
+example : (run cfg4 (init cfg4 1) (unlockRun.take 14)).locked = some ⟨7, true⟩ ∧
+    (run cfg4 (init cfg4 1) (unlockRun.take 15)).locked = none := by decide
+
+example : Sane cfg4 (init cfg4 1) unlockRun := by
+  simp only [unlockRun, Sane, TimeoutOk]; decide
+
+/-- the hypotheses of `lock_rule` hold on `unlockRun` with `r = 1`, `b = 7`, `r' = 3`, `x = nil`;
+the witness is the nil polka of round 2 -/
+example : Action.signVote .precommit 1 1 (some 7) ∈ (run cfg4 (init cfg4 1) unlockRun).log ∧
+    Action.signVote .prevote 1 3 none ∈ (run cfg4 (init cfg4 1) unlockRun).log ∧
+    quorum cfg4.powers (run cfg4 (init cfg4 1) unlockRun).votes .prevote 1 2 none := by
+  refine ⟨by decide, by decide, ?_⟩
+  unfold quorum; decide
+
+/-! ### the unlock site of `enterNewRound` (F36 fix): the nil polka of round 2 arrives while the
+node is still in round 1; the vote that completes it is also the one that gives +2/3 any, so the
+node skips to round 2 — and `releaseStale` releases the lock on entering it: the node prevotes nil
+in round 2, not its old lock -/
+
+def unlockSkipRun : List (Option Nat × Input) :=
   [ (none, .timeout 1 1 .newHeight),
     (none, .proposal 1 true 1 1 0 7),
     (none, .block 1 7 true true),
@@ -301,26 +378,25 @@ def unlockRun : List (Option Nat × Input) :=
     (none, .vote 1 2 .prevote 1 2 none true),
     (none, .vote 1 3 .prevote 1 2 none true),
     (none, .timeout 1 2 .propose),
-    (none, .vote 0 0 .prevote 1 2 (some 7) true),
-    (none, .vote 0 0 .precommit 1 2 none true),
-    (none, .vote 1 1 .prevote 1 3 (some 8) true),
-    (none, .vote 1 2 .prevote 1 3 (some 8) true),
-    (none, .vote 1 3 .prevote 1 3 (some 8) true),
-    (none, .timeout 1 3 .propose) ]
+    (none, .vote 0 0 .prevote 1 2 none true),
+    (none, .vote 0 0 .precommit 1 2 none true) ]
 
-example : (run cfg4 (init cfg4 1) unlockRun).log =
-    [.signVote .prevote 1 3 none, .schedule 1 3 .propose, .signVote .precommit 1 2 none,
-     .signVote .prevote 1 2 (some 7), .schedule 1 2 .propose, .signVote .precommit 1 1 (some 7),
-     .signVote .prevote 1 1 (some 7), .schedule 1 1 .propose] := by decide
+example : (run cfg4 (init cfg4 1) unlockSkipRun).log =
+    [.signVote .precommit 1 2 none, .signVote .prevote 1 2 none, .schedule 1 2 .propose,
+     .signVote .precommit 1 1 (some 7), .signVote .prevote 1 1 (some 7), .schedule 1 1 .propose] := by decide
 
-example : Sane cfg4 (init cfg4 1) unlockRun := by
-  simp only [unlockRun, Sane, TimeoutOk]; decide
+/-- locked before the third nil prevote, released (and in round 2) after it -/
+example : (run cfg4 (init cfg4 1) (unlockSkipRun.take 9)).locked = some ⟨7, true⟩ ∧
+    (run cfg4 (init cfg4 1) (unlockSkipRun.take 10)).locked = none ∧
+    (run cfg4 (init cfg4 1) (unlockSkipRun.take 10)).round = 2 := by decide
 
-/-- the hypotheses of `lock_rule` hold on `unlockRun` with `r = 1`, `b = 7`, `r' = 3`, `x = nil`;
-the witness is the nil polka of round 2 -/
-example : Action.signVote .precommit 1 1 (some 7) ∈ (run cfg4 (init cfg4 1) unlockRun).log ∧
-    Action.signVote .prevote 1 3 none ∈ (run cfg4 (init cfg4 1) unlockRun).log ∧
-    quorum cfg4.powers (run cfg4 (init cfg4 1) unlockRun).votes .prevote 1 2 none := by
+example : Sane cfg4 (init cfg4 1) unlockSkipRun := by
+  simp only [unlockSkipRun, Sane, TimeoutOk]; decide
+
+/-- `lock_rule` on it: `r = 1`, `b = 7`, `r' = 2`, `x = nil`; the witness is the nil polka of round 2 -/
+example : Action.signVote .precommit 1 1 (some 7) ∈ (run cfg4 (init cfg4 1) unlockSkipRun).log ∧
+    Action.signVote .prevote 1 2 none ∈ (run cfg4 (init cfg4 1) unlockSkipRun).log ∧
+    quorum cfg4.powers (run cfg4 (init cfg4 1) unlockSkipRun).votes .prevote 1 2 none := by
   refine ⟨by decide, by decide, ?_⟩
   unfold quorum; decide
 
